@@ -74,7 +74,11 @@ impl<I: Interner> Solver<I> for SLGSolver<I> {
                         SubstitutionResult::Ambiguous(answer.subst)
                     }
                 }
-                AnswerResult::Floundered => SubstitutionResult::Floundered,
+                AnswerResult::Floundered => {
+                    // A floundered table never yields anything else: report it
+                    // once, as the last result.
+                    return f(SubstitutionResult::Floundered, false);
+                }
                 AnswerResult::NoMoreSolutions => {
                     return true;
                 }
